@@ -1,7 +1,7 @@
 """U5: the mapping-line parser (src/mapping.rs) under contract: totality, progress, line-boundary discipline (C06, C13) and the
 class / header / member grammar (C05)."""
 import re
-from vf.unit import Unit, strip_attrs_and_docs
+from vf.unit import Unit, AnchorLost, strip_attrs_and_docs
 from .common import HEADER, FOOTER, contract, extract_struct, extract_struct_priv
 
 # spec text of a byte-predicate closure body: exec helper calls become their spec functions, byte literals stay
@@ -172,14 +172,18 @@ pub struct ExUtf8Error(std::str::Utf8Error);
         } }),
         /*@L:scan_step_stays_within_the_line:C06*/ ret is Ok ==> consumed_clean(bytes@, ret->Ok_0.1@) && str_no_nl(ret->Ok_0.0),""")
     f.body_start("let ghost b0 = bytes@;\n")
-    f.insert_before("if !bytes.is_empty() && is_newline(&bytes[0])", """proof {
+    mnl = re.search(r"if\s+!(\w+)\.is_empty\(\)\s*&&\s*is_newline\(&\1\[0\]\)", f.orig)
+    if not mnl:
+        raise AnchorLost("parse_until_no_newline: the line-end test `if !rest.is_empty() && is_newline(&rest[0])` was not found")
+    rv = mnl.group(1)
+    f.insert_at(mnl.start(), """proof {
                 let k = str_bytes(slice).len() as int;
-                if k < b0.len() { assert(bytes@[0] == b0[k]); }
-                lemma_consumed_intro(b0, bytes@, k);
+                if k < b0.len() { assert(RV@[0] == b0[k]); }
+                lemma_consumed_intro(b0, RV@, k);
                 reveal(str_no_nl);
                 assert forall|j: int| 0 <= j < k implies !spec_is_newline(#[trigger] str_bytes(slice)[j]) by { assert(str_bytes(slice)[j] == b0[j]); }
             }
-            """)
+            """.replace("RV", rv))
     u.emit(f)
 
     # ---------------- parse_usize ----------------
@@ -297,7 +301,7 @@ pub open spec fn class_tail(bytes: Seq<u8>, o: Seq<u8>, b: Seq<u8>) -> Seq<u8> {
     f.after_stmt("let (original, bytes) =", """    let ghost b1 = bytes@;
     proof {
         assert forall|o: Seq<u8>, b: Seq<u8>, tail: Seq<u8>| #[trigger] class_line(b0, o, b, tail) implies
-            str_bytes(original).len() == o.len() && b1 == lit_arrow() + b + lit_colon() + tail && b1.len() >= 4 && b1.subrange(0, 4) == lit_arrow() by {
+            /*@L:class_line_pieces_are_found_where_the_grammar_puts_them:C05*/ str_bytes(original).len() == o.len() && b1 == lit_arrow() + b + lit_colon() + tail && b1.len() >= 4 && b1.subrange(0, 4) == lit_arrow() by {
             let k = str_bytes(original).len() as int;
             if k > o.len() { assert(b0[o.len() as int] == 32u8); }
             if k < o.len() { assert(b0[k] == o[k]); }
@@ -308,7 +312,7 @@ pub open spec fn class_tail(bytes: Seq<u8>, o: Seq<u8>, b: Seq<u8>) -> Seq<u8> {
     f.after_stmt("let bytes = parse_prefix(bytes,", """    let ghost b2 = bytes@;
     proof {
         assert forall|o: Seq<u8>, b: Seq<u8>, tail: Seq<u8>| #[trigger] class_line(b0, o, b, tail) implies
-            b2 == b + lit_colon() + tail && b2[b.len() as int] == 58u8 && (forall|j: int| 0 <= j < b.len() ==> #[trigger] b2[j] == b[j]) && b2.subrange(0, b.len() as int) == b by {
+            /*@L:class_line_pieces_are_found_where_the_grammar_puts_them:C05*/ b2 == b + lit_colon() + tail && b2[b.len() as int] == 58u8 && (forall|j: int| 0 <= j < b.len() ==> #[trigger] b2[j] == b[j]) && b2.subrange(0, b.len() as int) == b by {
             lemma_after_arrow(b1, b, tail);
         }
     }
@@ -316,7 +320,7 @@ pub open spec fn class_tail(bytes: Seq<u8>, o: Seq<u8>, b: Seq<u8>) -> Seq<u8> {
     f.after_stmt("let (obfuscated, bytes) =", """    let ghost b3 = bytes@;
     proof {
         assert forall|o: Seq<u8>, b: Seq<u8>, tail: Seq<u8>| #[trigger] class_line(b0, o, b, tail) implies
-            b3 == lit_colon() + tail && b3.len() >= 1 && b3.subrange(0, 1) == lit_colon() by {
+            /*@L:class_line_pieces_are_found_where_the_grammar_puts_them:C05*/ b3 == lit_colon() + tail && b3.len() >= 1 && b3.subrange(0, 1) == lit_colon() by {
             let k = str_bytes(obfuscated).len() as int;
             lemma_after_arrow(b1, b, tail);
             if k > b.len() { assert(b2[b.len() as int] == 58u8); }
@@ -379,6 +383,16 @@ pub proof fn lemma_find_first(b: Seq<u8>, kind: int, k: int)
         lemma_find_first(t, kind, k - 1);
     }
 }
+// lemma_find_first for every candidate position at once (used on error paths, where no proof code can be inserted)
+pub proof fn lemma_find_first_all(b: Seq<u8>, kind: int)
+    ensures forall|k: int| (0 <= k <= b.len() && (#[trigger] b.subrange(0, k)).len() == k
+        && (forall|j: int| 0 <= j < k ==> !in_set(kind, #[trigger] b[j])) && (k < b.len() ==> in_set(kind, b[k]))) ==> find_first(b, kind) == k,
+{
+    assert forall|k: int| (0 <= k <= b.len() && (#[trigger] b.subrange(0, k)).len() == k
+        && (forall|j: int| 0 <= j < k ==> !in_set(kind, #[trigger] b[j])) && (k < b.len() ==> in_set(kind, b[k]))) implies find_first(b, kind) == k by {
+        lemma_find_first(b, kind, k);
+    }
+}
 pub open spec fn has_prefix(b: Seq<u8>, p: Seq<u8>) -> bool { p.len() <= b.len() && b.subrange(0, p.len() as int) == p }
 pub open spec fn lit_sfp() -> Seq<u8> { br#" {"id":"sourceFile","fileName":""#@ }
 pub open spec fn lit_sf_key() -> Seq<u8> { str_bytes("sourceFile") }
@@ -408,6 +422,19 @@ pub open spec fn header_spec(bytes: Seq<u8>) -> Option<HeaderSpec> {
         }
     }
 }
+// the text pieces of a header line (before trimming) are valid UTF-8 -- the only other reason for a header line to be rejected
+pub open spec fn header_utf8_ok(bytes: Seq<u8>) -> bool {
+    let body = bytes.subrange(1, bytes.len() as int);
+    if has_prefix(body, lit_sfp()) {
+        let v0 = body.subrange(32, body.len() as int);
+        valid_utf8(v0.subrange(0, find_first(v0, 1)))
+    } else {
+        let k = find_first(body, 2);
+        valid_utf8(body.subrange(0, k)) && (k < body.len() && body[k] == 58u8 ==> {
+            let after = body.subrange(k + 1, body.len() as int);
+            valid_utf8(after.subrange(0, find_first(after, 0))) })
+    }
+}
 pub open spec fn opt_bytes(o: Option<&str>) -> Option<Seq<u8>> { match o { Some(s) => Some(str_bytes(s)), None => None } }
 // a no-newline prefix of length k (1 <= k) followed by skip_nl of the remainder: the witness form of taken_within_first_line
 pub proof fn lemma_taken(b: Seq<u8>, k: int, rest: Seq<u8>)
@@ -428,7 +455,7 @@ pub proof fn lemma_sfp_no_nl()
     f.replace_all_re(r"parse_until\(bytes, is_newline\)", "parse_until(bytes, |b: &u8| -> (r: bool) ensures r == spec_is_newline(*b) { is_newline(b) })", "R3",
                      why="fn item `is_newline` passed as predicate: eta-expanded into a closure carrying its contract", min_count=0)
     f.replace_all_re(r"\.map\(\|\(v, bytes\)\| \(Some\(v\), bytes\)\)", ".map(|vb: (&str, &[u8])| -> (r: (Option<&str>, &[u8])) ensures r == (Some(vb.0), vb.1) { let (v, bytes) = vb; (Some(v), bytes) })", "R3",
-                     why="closure with a tuple pattern parameter: pattern moved into a `let` inside the body, contract added", min_count=1)
+                     why="closure with a tuple pattern parameter: pattern moved into a `let` inside the body, contract added", min_count=0)
     f.replace_all_re(r"key\.trim\(\)", "shim_trim(key)", "R2", why="str::trim behind a shim (result is a sub-slice)", min_count=0)
     f.replace_all_re(r"value\.map\(\|v\| v\.trim\(\)\)", "value.map(|v: &str| -> (r: &str) ensures str_bytes(r) == spec_trim(str_bytes(v)), exists|a: int, b: int| 0 <= a <= b <= str_bytes(v).len() && str_bytes(r) == #[trigger] str_bytes(v).subrange(a, b) { shim_trim(v) })", "R2", min_count=0)
     f.contract("""    ensures
@@ -437,12 +464,16 @@ pub proof fn lemma_sfp_no_nl()
             Ok((_, _)) => false,
             Err(_) => true,
         },
+        /*@L:every_well_formed_header_line_is_accepted:C05*/ (header_spec(bytes@) is Some && header_utf8_ok(bytes@)) ==> ret is Ok,
         /*@L:header_key_and_value_have_no_line_terminator:C06*/ match ret { Ok((ProguardRecord::Header { key, value }, _)) => str_no_nl(key) && opt_no_nl(value), _ => true },
         /*@L:header_record_taken_within_first_line:C06*/ ret is Ok ==> taken_within_first_line(bytes@, ret->Ok_0.1@),""")
-    f.body_start("let ghost b0 = bytes@;\n    proof { axiom_byte_literals(); reveal_strlit(\"sourceFile\"); }\n")
+    f.body_start("let ghost b0 = bytes@;\n    proof { axiom_byte_literals(); reveal_strlit(\"sourceFile\"); if b0.len() >= 1 && b0[0] == 35u8 { assert(b0.subrange(0, 1) =~= seq![35u8]); } }\n")
     f.after_stmt("let bytes = parse_prefix(bytes, b\"#\")", "    let ghost body = bytes@;\n    proof { assert(body =~= b0.subrange(1, b0.len() as int)); assert(b0.subrange(0, 1)[0] == 35u8); assert(b0[0] == 35u8); }\n")
-    f.insert_after("if let Ok(bytes) = parse_prefix(bytes, SOURCE_FILE_PREFIX) {", "\n        let ghost v0 = bytes@;")
-    f.after_stmt("let (value, bytes) = parse_until", "        let ghost v1 = bytes@;\n")
+    f.insert_after("if let Ok(bytes) = parse_prefix(bytes, SOURCE_FILE_PREFIX) {", "\n        let ghost v0 = bytes@;\n        proof { lemma_find_first_all(v0, 1); assert(has_prefix(body, lit_sfp())); assert(v0 =~= body.subrange(32, body.len() as int)); }")
+    f.after_stmt("let (value, bytes) = parse_until", """        let ghost v1 = bytes@;
+        proof { let k = str_bytes(value).len() as int; assert(v1 =~= v0.subrange(k, v0.len() as int)); assert(v0.subrange(0, k).len() == k);
+                if v1.len() >= 2 && v1[0] == 34u8 && v1[1] == 125u8 { assert(v1.subrange(0, 2) =~= seq![34u8, 125u8]); } }
+""")
     f.after_stmt("let bytes = parse_prefix(bytes, br#", "        let ghost v2 = bytes@;\n")
     f.insert_before("Ok((record, consume_leading_newlines(bytes)))", """proof {
             reveal(str_no_nl);
@@ -472,7 +503,30 @@ pub proof fn lemma_sfp_no_nl()
             assert(no_nl(lit_sf_key()));
         }
         """, occ=1)
-    f.after_stmt("let (key, bytes) = parse_until(", "        let ghost k1 = bytes@;\n")
+    f.insert_before("let (key, bytes) = parse_until(", "proof { lemma_find_first_all(body, 2); assert(!has_prefix(body, lit_sfp())); }\n        ")
+    f.after_stmt("let (key, bytes) = parse_until(", """        let ghost k1 = bytes@;
+        proof {
+            let k = str_bytes(key).len() as int;
+            assert(k1 =~= body.subrange(k, body.len() as int));
+            assert(body.subrange(0, k).len() == k);
+            if k < body.len() { assert(k1[0] == body[k]); }
+            if k1.len() >= 1 { assert(k1.subrange(0, 1) =~= seq![k1[0]]); assert(k1.subrange(0, 1)[0] == k1[0]); assert(seq![58u8][0] == 58u8); }
+            if k1.len() >= 1 {
+                assert(k1.subrange(1, k1.len() as int) =~= body.subrange(k + 1, body.len() as int));
+                lemma_find_first_all(k1.subrange(1, k1.len() as int), 0);
+                lemma_find_first_all(body.subrange(k + 1, body.len() as int), 0);
+                lemma_find_first(body, 2, k);
+                let after = k1.subrange(1, k1.len() as int);
+                // pre-digested for the error exit of the value scan: an invalid value makes the line ill-formed
+                assert forall|e: int| 0 <= e <= after.len() && k1[0] == 58u8 && !valid_utf8(#[trigger] after.subrange(0, e))
+                    && (forall|j: int| 0 <= j < e ==> !spec_is_newline(#[trigger] after[j])) && (e < after.len() ==> spec_is_newline(after[e]))
+                    implies !header_utf8_ok(b0) by {
+                    lemma_find_first(after, 0, e);
+                    assert(body[k] == 58u8);
+                }
+            }
+        }
+""")
     f.after_stmt("let (value, bytes) = match parse_prefix(", "        let ghost k2 = bytes@;\n")
     f.insert_before("Ok((record, consume_leading_newlines(bytes)))", """proof {
             reveal(str_no_nl);
